@@ -24,8 +24,8 @@ CHECKS["C01"] = {
     "level": "proof",
     "lean_targets": ["Yae.Props.C01"],
     "streams": [
-        EVAL(4000, 60000, kinds=["run"], projections=["skeleton"], oracles=["wf", "process-crash"]),
-        VM(1500, 20000, kinds=["vmrun"], projections=["skeleton"], oracles=["wf", "process-crash"]),
+        EVAL(4000, 60000, kinds=["run"], projections=["skeleton"], oracles=["wf"]),
+        VM(1500, 20000, kinds=["vmrun"], projections=["skeleton"], oracles=["wf"]),
         {"name": "envcheck", "quick_n": 1500, "thorough_n": 20000, "oracles_only": True, "oracles": ["envcheck-wrong-result"]},
     ],
     "explanation": "Preservation is a theorem over the model: check Γ e = ok (T, e') and a conforming environment imply every value eval produces is deeply well formed (WF) with own type tyEq T, irrespective of object field order (C01.preservation, annotated_sound, check_annotated, builtin_sound for all 53 strict built-ins, host_respects, field_order, no_nil); the VM inherits it through C03. The model is tied to the code by the eval/vm streams under the type-skeleton projection, and the implementation-side oracle walks every result of all four back ends against the inferred type with types.Equals.",
@@ -36,7 +36,7 @@ CHECKS["C02"] = {
     "level": "proof",
     "lean_targets": ["Yae.Props.C02", "Yae.Props.C11"],
     "streams": [
-        EVAL(4000, 60000, kinds=["run"], projections=["class"],
+        EVAL(4000, 60000, kinds=["run"], projections=["class"], model_is_oracle=True,
              oracles=["internal-fault", "compile-internal-fault", "check-internal-fault", "process-crash"]),
         VM(1500, 20000, kinds=["vmrun", "verify"], projections=["class", "verify"], oracles=["compile-internal-fault", "process-crash"]),
     ],
@@ -49,7 +49,7 @@ CHECKS["C03"] = {
     "lean_targets": ["Yae.Props.C03", "Yae.Props.C02"],
     "streams": [
         EVAL(4000, 60000, oracles_only=True, oracles=["backend-divergence*", "callthread-exec-limit", "vm-dynamic-lazy"]),
-        VM(2500, 30000, kinds=["vmrun", "vmcode"]),
+        VM(2500, 30000, kinds=["vmcode"]),
     ],
     "explanation": "Compiler-correctness simulation over the model: for every well-annotated tree whose reference evaluation is not stuck (C01/C02), running the compiled code on the model machine equals the reference evaluator — same value or failure and the same log of host calls and prints (C03.vm_correct, vm_same_events); the compiler refuses well-annotated trees only for an encoding overflow (refuse_overflow). The reference evaluator is tied to the closure compiler and the AST interpreter, the model compiler and machine to vm.Compile and both dispatch loops by the eval and vm streams (bytes, constant pool, outcome, event order), and the oracle compares the four back ends pairwise on every accepted program.",
     "assumptions": ["the call-threaded loop is generated from the switch loop by the repository's own generator; it is tied behaviourally, not modelled separately", "vmFuel e <= the fuel runVm passes is not proved (the machine is additionally shown to need at most the code size by C11)"],
@@ -60,6 +60,7 @@ CHECKS["C04"] = {
     "lean_targets": ["Yae.Props.C04"],
     "streams": [
         EVAL(5000, 80000, kinds=["run"], projections=["value", "class"], model_is_oracle=True),
+        VM(1500, 20000, kinds=["vmrun"], projections=["value", "class"], model_is_oracle=True),
         {"name": "num", "quick_n": 20000, "thorough_n": 300000, "model_is_oracle": True},
         {"name": "valrel", "quick_n": 3000, "thorough_n": 40000},
     ],
@@ -82,8 +83,8 @@ CHECKS["C06"] = {
     "level": "proof",
     "lean_targets": ["Yae.Props.C06", "Yae.Props.C03"],
     "streams": [
-        EVAL(5000, 80000, kinds=["run"], projections=["calls"], oracles=["backend-divergence-calls"]),
-        VM(1500, 20000, kinds=["vmrun"], projections=["calls"]),
+        EVAL(5000, 80000, kinds=["run"], projections=["callnames"], oracles=["backend-divergence-calls"]),
+        VM(1500, 20000, kinds=["vmrun"], projections=["callnames"]),
     ],
     "explanation": "Unfolding theorems about the reference evaluator: if/&&/|| evaluate the condition once and only the selected operand (if_lazy, and_lazy, or_lazy, if_true/false), lazy host functions force exactly the thunks they choose (lazy_host), strict calls, list/map/object literals and subscripts evaluate operands once in source order and then emit exactly one call event (operands_in_order, strict_order_*, list/map/obj/subscript_order, host_invocation_event), the guard if(isset(m,k), m[k], d) never fails (guard_safe), evaluation is a function of its inputs (determined); the VM produces the same log (C03.vm_same_events). Tie: call-trace projection of the eval and vm streams with tracing, failing and lazy host functions in operand positions on all four back ends.",
     "assumptions": [],
@@ -128,6 +129,7 @@ CHECKS["C10"] = {
     "streams": [
         {"name": "desugar", "quick_n": 6000, "thorough_n": 50000,
          "oracles": ["desugar-core", "desugar-idempotent", "desugar-idempotent-group-member", "desugar-mutates-input", "desugar-order", "desugar-shape", "process-crash"]},
+        EVAL(2500, 30000, oracles_only=True, oracles=["desugar-aliases-input"]),
     ],
     "explanation": "Over the model of trans.Desugar: the result contains only core forms (core), desugaring is idempotent on every tree without a parenthesised member callee (idem_partial, with the kernel-checked witness (o.f)(x) of the excluded shape), the five rewriting equations hold by definition and receiver/arguments keep their order (shape_*); type and value of sugar are those of its desugaring because the pipeline has no other semantics for it. Tie: desugar stream on every tree the parse stream accepted plus hand-built ones; oracles for core-only, idempotence, input purity (tree serialised before/after) and order against an independent rule-based reference.",
     "assumptions": [],
@@ -137,7 +139,7 @@ CHECKS["C11"] = {
     "level": "proof",
     "lean_targets": ["Yae.Props.C11", "Yae.Props.C11b", "Yae.Props.C03"],
     "streams": [
-        VM(4000, 40000, kinds=["verify", "vmcode"], oracles=["compile-internal-fault"]),
+        VM(4000, 40000, kinds=["verify", "vmcode"], model_is_oracle=["verify"], oracles=["compile-internal-fault"]),
     ],
     "explanation": "An executable verifier (Model/VmVerify.lean: complete decoding into known instructions, in-range constants of the right kind, forward jumps to instruction boundaries, a consistent abstract stack with slot kinds, exactly one value at the final return, thunk bodies against the pool prefix they were compiled with) is PROVED sound for the model machine: verified code never underflows, never meets an unknown opcode / wrong constant kind / thunk-value confusion and stops within the code size (verify_sound, verify_sound_thunk, runVm_sound, verify_decodes, wellFormed_explicit), and every output of the model compiler on a checked tree verifies and runs safely (compile_verified_checked, compiled_runs_safely). It is also run on the bytes the Go compiler actually emitted for every generated program (translation validation, incl. >255 / >65535-member literals and long conditionals), and the model compiler is tied byte for byte to vm.Compile.",
     "assumptions": ["compile_verified is proved for well-annotated trees whose list/map literals carry list/map types (C11.compile_verified_partial), which the checker's output always satisfies (compile_verified_checked); the kernel-checked counterexamples not_verified_* show the hypothesis is needed"],
@@ -161,7 +163,7 @@ CHECKS["C13"] = {
     "lean_targets": ["Yae.Props.C13", "Yae.Props.C06"],
     "streams": [
         {"name": "history", "quick_n": 800, "thorough_n": 10000, "oracles": ["history-*", "process-crash"]},
-        EVAL(3000, 40000, kinds=["run"], projections=["prints"]),
+        EVAL(3000, 40000, kinds=["run"], projections=["prints"], oracles=["address-in-text"]),
         {"name": "valrel", "quick_n": 2000, "thorough_n": 30000, "oracles_only": True, "oracles": ["valrel-canonical"]},
     ],
     "explanation": "The model is a pure function of (source, environment): evaluation is determined (C06.determined), renderings and string() are invariant under any re-ordering of map entries at any depth (C13.texts_invariant, render_map_perm, stringify_map_perm, valEq_map_perm) and object rendering under field permutation (render_obj_perm); the only events are host calls and print lines. Tie: the history stream plays random Compile/invoke sequences on ONE engine with shared environment objects (structs, *types.Env/*val.Env, maps), each invoke twice, against fresh engines with fresh copies, with stdout captured and host values deep-compared; the prints projection of the eval stream.",
